@@ -150,6 +150,25 @@ impl Epoch {
         }
     }
 
+    /// Returns the IERS leap seconds in force at the provided TAI duration since J1900.
+    ///
+    /// The thresholds of the leap second table are UTC counts, so on the TAI axis an entry takes
+    /// effect at its threshold plus the offset that was in force before it (and not at the bare
+    /// threshold, which is up to 37 s too early).
+    fn leap_seconds_at_tai(tai: Duration) -> f64 {
+        let mut in_force = 0.0;
+        for leap_second in LatestLeapSeconds::default() {
+            if leap_second.announced_by_iers {
+                if tai >= (leap_second.timestamp_tai_s + in_force) * Unit::Second {
+                    in_force = leap_second.delta_at;
+                } else {
+                    break;
+                }
+            }
+        }
+        in_force
+    }
+
     fn delta_et_tai(seconds: f64) -> f64 {
         // Calculate M, the mean anomaly.4
         let m = NAIF_M0 + seconds * NAIF_M1;
@@ -275,13 +294,8 @@ impl Epoch {
                     prime_epoch_offset + delta_tdb_tai - ts.prime_epoch_offset()
                 }
                 TimeScale::UTC => {
-                    // Assume it's TAI
-                    let epoch = Self {
-                        duration: prime_epoch_offset,
-                        time_scale: TimeScale::TAI,
-                    };
                     // TAI = UTC + leap_seconds <=> UTC = TAI - leap_seconds
-                    prime_epoch_offset - epoch.leap_seconds(true).unwrap_or(0.0).seconds()
+                    prime_epoch_offset - Self::leap_seconds_at_tai(prime_epoch_offset).seconds()
                 }
                 TimeScale::GPST => prime_epoch_offset - GPST_REF_EPOCH.to_tai_duration(),
                 TimeScale::GST => prime_epoch_offset - GST_REF_EPOCH.to_tai_duration(),
